@@ -457,6 +457,7 @@ def run(chk, tier):
         chk.unknown_instance('RAWDIFF', 'etl::midpoint', 'the integral overload of midpoint was not recognised')
     _IT.index_loop_area(chk, cdb, ['_string_view/', '_string/basic_inplace_string', '_bitset/', '_span/', '_array/'])      # IDXLOOP
     _IT.counted_buffer_area(chk, cdb, ['_string/char_traits', '_cstring/', '_cwchar/', '_strings/cstr', '_algorithm/', '_memory/'])      # PTRCOUNT
+    _IT.count_subscript_control(chk, D)
     # ---- RSTEP: downward scans compare the cursor with its lower bound before every step
     if _IT.rstep_area(chk, cdb, [""]) < 8:
         chk.analysis_broken("RSTEP: fewer than 8 downward scans found (floor 8)")
